@@ -224,6 +224,8 @@ def seg_len(kind, s):
         return s.n if isinstance(s, RepStr) else len(s)
     if kind == 'list':
         return len(s)
+    if kind == 'df':
+        return s.n if s.n is not None else 0
     raise Unsupported('seg_len')
 
 
@@ -567,6 +569,12 @@ class Interp:
         return bool(names & free_consts(t))
 
     def st_If(self, st, frame):
+        if _empty_or_concat_idiom(st):
+            # `if len(X)==0: X = Y.copy() else: X = pd.concat([X, Y.copy()])`  ==  X = pd.concat([X, Y.copy()])
+            # (pandas: concatenating an empty frame with Y yields Y; axiom pd_concat in libmodel)
+            self.dropped.add('idiom empty-or-concat normalised to concat')
+            self.exec_block(st.orelse, frame)
+            return
         c = self.truth(self.ev(st.test, frame))
         if not st.orelse and all(_is_dropped(x) for x in st.body):
             self.dropped.add('if-with-print-only-body')
@@ -943,6 +951,12 @@ class Interp:
         if isinstance(o, DF):
             self.model.df_setitem(self, o, idx, v)
             return
+        if isinstance(o, Seg) and o.kind == 'df':
+            if self.loops or self.guards or not isinstance(idx, str) or isinstance(v, (Arr, Mat, list, tuple)):
+                raise Unsupported('column store on a loop-built frame (form)')
+            for sgm in o.segs:
+                self.model.df_setitem(self, sgm.item if isinstance(sgm, Family) else sgm, idx, v)
+            return
         if hasattr(o, 'setitem'):
             o.setitem(self, idx, v)
             return
@@ -1246,6 +1260,8 @@ class Interp:
             return as_seg('str', cur)
         if isinstance(cur, list):
             return Seg('list', [list(cur)] if cur else [])
+        if isinstance(cur, DF):
+            return Seg('df', [cur] if (cur.n is not None and cur.cols) else [])
         return None
 
     def seg_append(self, acc, item):
@@ -1279,6 +1295,9 @@ class Interp:
         elif kind == 'list':
             if not isinstance(item, list):
                 raise Unsupported('list accumulate')
+        elif kind == 'df':
+            if not isinstance(item, DF):
+                raise Unsupported('frame accumulate')
         if not self.loops:
             if self.guards:
                 raise Unsupported('append under guard')
@@ -1831,6 +1850,26 @@ class Interp:
 
 
 _MISSING = object()
+
+
+def _empty_or_concat_idiom(st):
+    import re
+    if len(st.body) != 1 or len(st.orelse) != 1:
+        return False
+    a, b = st.body[0], st.orelse[0]
+    if not (isinstance(a, ast.Assign) and isinstance(b, ast.Assign) and len(a.targets) == 1 and len(b.targets) == 1):
+        return False
+    if not (isinstance(a.targets[0], ast.Name) and isinstance(b.targets[0], ast.Name) and a.targets[0].id == b.targets[0].id):
+        return False
+    X = a.targets[0].id
+    m = re.fullmatch(r'len\((\w+)\) == 0', ast.unparse(st.test))
+    if not m or m.group(1) != X:
+        return False
+    m2 = re.fullmatch(r'(\w+)\.copy\(\)', ast.unparse(a.value))
+    if not m2:
+        return False
+    Y = m2.group(1)
+    return ast.unparse(b.value) == f'pd.concat([{X}, {Y}.copy()])'
 
 
 def _is_dropped(st):
